@@ -10,11 +10,82 @@ open StunVerif
 
 /-- the cause the parser names is one of the true causes -/
 theorem cause_admissible (b : Bytes) (e : PErr) (h : msgFromBytes b = .error e) : e ∈ Spec.causes b := by
-  sorry
+  by_cases h20 : 20 ≤ b.length
+  · have hwc := walk_causes b.length b (b.drop 20) 20 [] (by rw [List.length_drop]; omega)
+    rw [msgFromBytes_unfold b h20] at h
+    rw [causes_unfold b h20]
+    unfold lenCauses
+    split at h
+    · injection h with h; subst h
+      rename_i h1
+      rw [if_pos (Or.inl h1)]; simp
+    · split at h
+      · injection h with h; subst h
+        rename_i h1 h2
+        rw [if_pos (Or.inr h2)]; simp
+      · rename_i h1 h2
+        rw [if_neg (fun h => h.elim h1 h2)]
+        split at h
+        · injection h with h; subst h
+          rename_i h3
+          simp [h3]
+        · split at h
+          · injection h with h; subst h
+            rename_i h3 h4
+            simp [h3, h4]
+          · rename_i h3 h4
+            simp only [h3, h4, if_false, if_true]
+            cases hw : walk b.length b (b.drop 20) 20 [] with
+            | error e' =>
+              rw [hw] at h
+              simp only [Except.map] at h
+              injection h with h; subst h
+              exact hwc.1 _ hw
+            | ok u => rw [hw] at h; cases h
+  · have hs : b.length < 20 := by omega
+    unfold msgFromBytes at h
+    rw [header_short b hs] at h
+    simp only [bind, Except.bind] at h
+    injection h with h; subst h
+    obtain ⟨cs, hc⟩ := causes_short b hs
+    rw [hc]; simp
 
 /-- no cause can be named for an accepted buffer, and some cause is true of every refused one -/
 theorem causes_nil_iff (b : Bytes) : Spec.causes b = [] ↔ ∃ m, msgFromBytes b = .ok m := by
-  sorry
+  by_cases h20 : 20 ≤ b.length
+  · have hwc := walk_causes b.length b (b.drop 20) 20 [] (by rw [List.length_drop]; omega)
+    rw [causes_unfold b h20]
+    unfold lenCauses
+    constructor
+    · intro h
+      split at h
+      · cases h
+      · rename_i h1
+        have h1a : beNat (b.take 2) < 0x4000 := by
+          have := fun x => h1 (Or.inl x); omega
+        have h1b : (b.drop 4).take 4 = [0x21, 0x12, 0xA4, 0x42] := by
+          have := fun x => h1 (Or.inr x); simpa using this
+        by_cases h3 : beNat ((b.drop 2).take 2) + 20 > b.length
+        · simp [h3] at h
+        · by_cases h4 : beNat ((b.drop 2).take 2) + 20 < b.length
+          · simp [h3, h4] at h
+          · simp only [h3, h4, if_false, if_true] at h
+            exact ⟨⟨b⟩, (msgFromBytes_ok_iff b ⟨b⟩).mpr
+              ⟨rfl, h20, h1a, h1b, by omega, hwc.2.mpr h⟩⟩
+    · rintro ⟨m, hm⟩
+      obtain ⟨_, _, h1, h2, h3, h4⟩ := (msgFromBytes_ok_iff b m).mp hm
+      rw [if_neg (fun h => h.elim (by omega) (fun h => h h2))]
+      simp only [show ¬ beNat ((b.drop 2).take 2) + 20 > b.length by omega,
+        show ¬ beNat ((b.drop 2).take 2) + 20 < b.length by omega, if_false, if_true]
+      exact hwc.2.mp h4
+  · have hs : b.length < 20 := by omega
+    obtain ⟨cs, hc⟩ := causes_short b hs
+    rw [hc]
+    constructor
+    · intro h; cases h
+    · rintro ⟨m, hm⟩
+      obtain ⟨_, h, _⟩ := (msgFromBytes_ok_iff b m).mp hm
+      omega
 
 /-- two true causes at once: a 19-byte buffer with a type field that is not STUN either -/
 example : Spec.causes (0xC0 :: List.replicate 18 0) = [.truncated 20 19, .notStun] := by decide
